@@ -224,7 +224,7 @@ func c06Random(r *Rng) C06Case {
 		c.Body = "plain text"
 	case 3:
 		// a JSON value followed by something else: not a JSON text (white space alone is fine)
-		c.Body += Pick(r, []string{" trailing", "{}", " 1", "]", "\n", " \t\n"})
+		c.Body += Pick(r, []string{" trailing", "{}", " 1", "]", "}", " }", "\n", " \t\n"})
 	}
 	return c
 }
@@ -360,6 +360,12 @@ func init() {
 			meta.Histogram["form multipart transfer-encoded parts"]++
 			if sig, detail := runFormTransferEncoding(); sig != "" {
 				meta.GoViolation = append(meta.GoViolation, map[string]any{"signature": sig, "cases": []any{map[string]string{"body": "multipart/form-data with a quoted-printable part"}}, "go_observation": detail, "judgement": sig + " " + detail})
+			}
+		}
+		if replay == "" {
+			meta.Histogram["form urlencoded arrays under an Encoding Object (style x explode)"] += 10
+			for _, v := range runFormEncodingStyles() {
+				meta.GoViolation = append(meta.GoViolation, map[string]any{"signature": v[0], "cases": []any{map[string]string{"body": v[1]}}, "go_observation": v[1], "judgement": v[0] + " " + v[1]})
 			}
 		}
 		// urlencoded forms against the model of the urlencoded decoder (meta.Cases: the plain cases, then these)
